@@ -74,15 +74,16 @@ def gen_lattice_tris(rng):
     return out, G
 
 
-def index_mesh(rng, tris_pts, G):
-    """vertex array + index triples: positions shared by default, a few split, a few unused"""
+def index_mesh(rng, tris_pts, G, soup=False):
+    """vertex array + index triples: positions shared by default, a few split, a few unused;
+    soup: no point is shared or unused (points == 3 * triangles) and the index is a permutation"""
     pos2idx = {}
     verts = []
     tris = []
     for tri in tris_pts:
         row = []
         for p in tri:
-            if p in pos2idx and rng.random() < 0.93:
+            if p in pos2idx and rng.random() < 0.93 and not soup:
                 row.append(pos2idx[p])
             else:
                 verts.append(p)
@@ -90,7 +91,7 @@ def index_mesh(rng, tris_pts, G):
                     pos2idx[p] = len(verts) - 1
                 row.append(len(verts) - 1)
         tris.append(row)
-    for _ in range(rng.choice([0, 0, 0, 1, 2])):
+    for _ in range(0 if soup else rng.choice([0, 0, 0, 1, 2])):
         verts.append(tuple(rng.randint(0, G) for _ in range(3)))
     perm = list(range(len(verts)))
     rng.shuffle(perm)            # perm[old] = new
@@ -257,7 +258,8 @@ def gen_lattice_normals(rng):
         tp, G = gen_lattice_tris(rng)
         if tp:
             break
-    verts, tris = index_mesh(rng, tp, G)
+    soup = rng.random() < 0.12
+    verts, tris = index_mesh(rng, tp, G, soup)
     vden0 = rng.choice([1, 1, 2, 4])
     shift = [rng.randint(-3, 3) * vden0 for _ in range(3)]
     verts = [[p[i] + shift[i] for i in range(3)] for p in verts]
@@ -271,9 +273,13 @@ def gen_lattice_normals(rng):
         case['uvtris'] = [[0, 1, 2] for _ in tris]
     if mode.startswith('bound'):
         case['mat'], case['mat_tnum'] = rand_matrix(rng, step * vden0, vden)
-        case['seq'] = rng.choice(['bound-gen', 'unbound-first', 'unbound-first', 'bound-gen-twice'])
+        case['seq'] = rng.choice(['bound-gen', 'unbound-first', 'unbound-first', 'bound-gen-twice', 'bound-gen-edit-gen'])
     else:
-        case['seq'] = rng.choice(['gen', 'gen', 'gen-twice'])
+        case['seq'] = rng.choice(['gen', 'gen', 'gen-twice', 'gen-edit-gen', 'gen-edit-gen'])
+    if 'edit' in case['seq']:
+        # the vertex array is rewritten in place between two generateNormals() calls
+        case['edit_mat'], case['edit_tnum'] = rand_matrix(rng, step * vden0, vden)
+    case['soup'] = soup
     return finish_case(rng, case)
 
 
@@ -330,7 +336,41 @@ def gen_lattice_tangents(rng):
 
 # ------------------------------------------------------------------ random float meshes (oracle only)
 
+def shaped(verts, tris, thr):
+    for t in tris:
+        a, b, c = (verts[i] for i in t)
+        u = [b[i] - a[i] for i in range(3)]
+        w = [c[i] - a[i] for i in range(3)]
+        cr = (u[1] * w[2] - u[2] * w[1], u[2] * w[0] - u[0] * w[2], u[0] * w[1] - u[1] * w[0])
+        lu, lw, lc = (math.sqrt(sum(x * x for x in v)) for v in (u, w, cr))
+        if lu < 0.3 or lw < 0.3 or lc < thr * lu * lw:
+            return False
+    return True
+
+
+def apply3(lin, verts):
+    return [[sum(lin[r][k] * p[k] for k in range(3)) for r in range(3)] for p in verts]
+
+
+def float_matrix(rng, cur, tris, sc):
+    """a bind / edit matrix for a float mesh whose current (unscaled) vertices are `cur`: non-rigid when
+    that keeps the triangles well shaped -> (12 entries with the translation at the mesh's scale, new cur)"""
+    lin = rand_nonrigid3(rng) if rng.random() < 0.6 else None
+    if lin is not None and not shaped(apply3(lin, cur), tris, 0.15):
+        lin = None
+    if lin is None:
+        m, _ = rand_matrix(rng)
+        lin = [[int(m[4 * r + k]) for k in range(3)] for r in range(3)]
+        if not shaped(apply3(lin, cur), tris, 0.1):
+            lin = [[1 if i == j else 0 for j in range(3)] for i in range(3)]
+            lin[rng.randrange(3)][rng.randrange(3)] *= -1
+    mat = [x for r in range(3) for x in (lin[r] + [rng.randint(-3, 3) * sc])]
+    return mat, apply3(lin, cur)
+
+
 def gen_float_case(rng, kind):
+    if kind == 'normals' and rng.random() < 0.12:
+        return gen_float_soup(rng)
     nv = rng.randint(3, 9)
     verts = [[f32(rng.uniform(-4, 4)) for _ in range(3)] for _ in range(nv)]
     tris = []
@@ -363,29 +403,7 @@ def gen_float_case(rng, kind):
     if kind == 'normals':
         case['mode'] = rng.choice(['api', 'xml', 'bound-api', 'bound-xml'])
         case['inputs'], case['nind'] = layout(rng, False, False)
-        if case['mode'].startswith('bound'):
-            lin = None
-            if rng.random() < 0.6:
-                lin = rand_nonrigid3(rng)
-                # keep the transformed triangles well shaped (the oracle is a float comparison)
-                for t in tris:
-                    a, b, c = ([sum(lin[r][k] * unscaled[i][k] for k in range(3)) for r in range(3)] for i in t)
-                    u = [b[i] - a[i] for i in range(3)]
-                    w = [c[i] - a[i] for i in range(3)]
-                    cr = (u[1] * w[2] - u[2] * w[1], u[2] * w[0] - u[0] * w[2], u[0] * w[1] - u[1] * w[0])
-                    lu, lw, lc = (math.sqrt(sum(x * x for x in v)) for v in (u, w, cr))
-                    if lu < 0.3 or lw < 0.3 or lc < 0.15 * lu * lw:
-                        lin = None
-                        break
-            if lin is None:
-                case['mat'], _ = rand_matrix(rng)
-            else:
-                case['mat'] = [x for r in range(3) for x in (lin[r] + [rng.randint(-3, 3)])]
-            for r in range(3):
-                case['mat'][4 * r + 3] = case['mat'][4 * r + 3] * sc
-            case['seq'] = rng.choice(['bound-gen', 'unbound-first', 'unbound-first', 'bound-gen-twice'])
-        else:
-            case['seq'] = rng.choice(['gen', 'gen', 'gen-twice'])
+        finish_float_normals(rng, case, unscaled, tris, sc)
     else:
         case['mode'] = rng.choice(['api', 'xml'])
         own = rng.random() < 0.5
@@ -425,6 +443,67 @@ def gen_float_case(rng, kind):
     return finish_case(rng, case)
 
 
+def finish_float_normals(rng, case, unscaled, tris, sc):
+    """mode-dependent part of a float normals case: bind matrix, float64 data far from the origin,
+    operation sequence (with an in-place edit of the vertex array between two generateNormals())"""
+    cur = unscaled
+    api = case['mode'] in ('api', 'bound-api')
+    if api and rng.random() < 0.7 and abs(case['scale_exp']) <= 4:
+        # geo-referenced data: float64 coordinates of about 1e7 with edges of about 1
+        case['dtype64'] = True
+        off = [float(rng.randint(-30000000, 30000000)) for _ in range(3)]
+        case['fverts'] = [[p[i] + off[i] for i in range(3)] for p in case['fverts']]
+    if case['mode'].startswith('bound'):
+        case['mat'], cur = float_matrix(rng, cur, tris, sc)
+        if case['mode'] == 'bound-api' and rng.random() < 0.4:
+            case['mat64'] = True              # Geometry.bind with a double precision matrix
+            if abs(case['scale_exp']) <= 4 and rng.random() < 0.6:
+                for r in range(3):
+                    case['mat'][4 * r + 3] = float(rng.randint(-30000000, 30000000))
+        case['seq'] = rng.choice(['bound-gen', 'unbound-first', 'unbound-first', 'bound-gen-twice', 'bound-gen-edit-gen'])
+    else:
+        case['seq'] = rng.choice(['gen', 'gen', 'gen-twice', 'gen-edit-gen', 'gen-edit-gen'])
+    if 'edit' in case['seq']:
+        case['edit_mat'], cur = float_matrix(rng, cur, tris, sc)
+        if case.get('dtype64') or case.get('mat64'):
+            for r in range(3):
+                case['edit_mat'][4 * r + 3] = 0.0        # keep the large offset exact under the edit
+
+
+def gen_float_soup(rng):
+    """no point is shared or unused and the index is a permutation (a faceted export, stored e.g.
+    corner-major), triangles in different planes"""
+    ntri = rng.randint(2, 8)
+    pts, tris_pts = [], []
+    while len(tris_pts) < ntri:
+        tri = [[f32(rng.uniform(-4, 4)) for _ in range(3)] for _ in range(3)]
+        if shaped(tri, [[0, 1, 2]], 0.2):
+            tris_pts.append(tri)
+    layout_kind = rng.choice(['corner-major', 'random', 'reverse'])
+    n3 = 3 * ntri
+    if layout_kind == 'corner-major':
+        slot = {(t, c): c * ntri + t for t in range(ntri) for c in range(3)}
+    elif layout_kind == 'reverse':
+        slot = {(t, c): n3 - 1 - (3 * t + c) for t in range(ntri) for c in range(3)}
+    else:
+        perm = list(range(n3))
+        rng.shuffle(perm)
+        slot = {(t, c): perm[3 * t + c] for t in range(ntri) for c in range(3)}
+    unscaled = [None] * n3
+    tris = []
+    for t in range(ntri):
+        tris.append([slot[(t, c)] for c in range(3)])
+        for c in range(3):
+            unscaled[slot[(t, c)]] = tris_pts[t][c]
+    e = rng.choice(SCALE_EXPS)
+    sc = 2.0 ** e
+    case = {'kind': 'normals', 'lattice': False, 'fverts': [[x * sc for x in p] for p in unscaled], 'tris': tris,
+            'scale_exp': e, 'soup': True, 'mode': rng.choice(['api', 'xml', 'bound-api', 'bound-xml'])}
+    case['inputs'], case['nind'] = layout(rng, False, False)
+    finish_float_normals(rng, case, unscaled, tris, sc)
+    return finish_case(rng, case)
+
+
 # ------------------------------------------------------------------ polygons without normals (oracle only)
 
 def gen_poly_case(rng):
@@ -439,6 +518,12 @@ def gen_poly_case(rng):
     case = {'kind': 'poly', 'lattice': False, 'fverts': verts, 'polys': polys, 'tris': [p[:3] for p in polys],
             'scale_exp': e, 'mode': rng.choice(['api', 'xml', 'bound-api', 'bound-xml']),
             'element': rng.choice(['polylist', 'polylist', 'polygons']), 'inputs': {'VERTEX': 0}, 'nind': 1}
+    if case['mode'] in ('api', 'bound-api') and abs(e) <= 4 and rng.random() < 0.35:
+        case['dtype64'] = True
+        off = [float(rng.randint(-30000000, 30000000)) for _ in range(3)]
+        case['fverts'] = [[p[i] + off[i] for i in range(3)] for p in verts]
+    if case['mode'] == 'bound-api' and rng.random() < 0.4:
+        case['mat64'] = True
     if case['mode'].startswith('bound'):
         lin = rand_nonrigid3(rng) if rng.random() < 0.5 else None
         if lin is None:
@@ -484,13 +569,19 @@ def rescale(rows, den, common):
 
 
 def expected_verts(case):
-    """integer vertex rows (denominator vden) the primitive must hold; bound = matrix applied"""
-    if not case['mode'].startswith('bound'):
-        return case['verts']
-    m = case['mat']
-    t = case.get('mat_tnum') or [int(m[4 * r + 3]) * case['vden'] for r in range(3)]
-    return [[int(m[4 * r]) * p[0] + int(m[4 * r + 1]) * p[1] + int(m[4 * r + 2]) * p[2] + t[r] for r in range(3)]
-            for p in case['verts']]
+    """integer vertex rows (denominator vden) the primitive must hold when generateNormals() runs for
+    the last time: the bind matrix applied (bound sets), then the in-place edit (edit sequences)"""
+    rows = case['verts']
+
+    def app(m, t, rows):
+        return [[int(m[4 * r]) * p[0] + int(m[4 * r + 1]) * p[1] + int(m[4 * r + 2]) * p[2] + t[r] for r in range(3)]
+                for p in rows]
+    if case['mode'].startswith('bound'):
+        m = case['mat']
+        rows = app(m, case.get('mat_tnum') or [int(m[4 * r + 3]) * case['vden'] for r in range(3)], rows)
+    if case.get('edit_mat'):
+        rows = app(case['edit_mat'], case['edit_tnum'], rows)
+    return rows
 
 
 def encode(case, obs):
@@ -627,6 +718,9 @@ def run(ctx):
         kinds[k] = kinds.get(k, 0) + 1
         sq = c.get('seq') or ('+'.join(c['tan_seq']) if c.get('tan_seq') else None)
         seqs[sq] = seqs.get(sq, 0) + 1
+        for flag in ('soup', 'dtype64', 'mat64'):
+            if c.get(flag):
+                seqs['flag ' + flag] = seqs.get('flag ' + flag, 0) + 1
         if c.get('fstale'):
             seqs['with existing TEXTANGENT/TEXBINORMAL inputs'] = seqs.get('with existing TEXTANGENT/TEXBINORMAL inputs', 0) + 1
         scales[str(c.get('scale_exp', 0))] = scales.get(str(c.get('scale_exp', 0)), 0) + 1
